@@ -294,7 +294,10 @@ func c05CheckFrame(c c05Case, data []byte) error {
 			if int(f.UDP.Length) != len(l4) {
 				return fmt.Errorf("udp length %d, datagram has %d", f.UDP.Length, len(l4))
 			}
-			if f.UDP.Checksum == 0 || wire.TransportChecksum(ip.Src, ip.Dst, 17, l4) != 0 {
+			// the checksum must verify arithmetically over pseudo-header and datagram. (A field of 0x0000 only verifies in
+			// the 1-in-65536 case where the computed checksum is zero; RFC 768 prefers 0xffff there, the property does
+			// not ask for that encoding. A checksum that was simply not computed does not verify and is reported.)
+			if wire.TransportChecksum(ip.Src, ip.Dst, 17, l4) != 0 {
 				return fmt.Errorf("wrong udp checksum %#04x", f.UDP.Checksum)
 			}
 		}
